@@ -126,7 +126,7 @@ fn enumerate(max: usize) -> Vec<Vec<Tok>> {
 static SEQ_QUICK: OnceLock<Vec<Vec<Tok>>> = OnceLock::new();
 static SEQ_THOROUGH: OnceLock<Vec<Vec<Tok>>> = OnceLock::new();
 const QUICK_MAX: usize = 11;
-const THOROUGH_MAX: usize = 14;
+const THOROUGH_MAX: usize = 15;
 
 fn seqs(thorough: bool) -> &'static Vec<Vec<Tok>> {
     if thorough {
@@ -392,7 +392,7 @@ fn case_truthiness(t: &mut Tape, st: &mut Stats) -> Verdict {
 pub fn property() -> Property {
     Property {
         id: "C06",
-        rule: "(grammar) EXHAUSTIVE enumeration of every well-formed token sequence of E := A ((and|or) A)*, A := T | F | ( E? ) up to 11 tokens (quick) / 14 tokens (thorough), each T/F spelled with a truthy/falsy value from a pool and passed through a variable, run through all four consumers (not, if, elseif, while) and compared with a 40-line and-of-ors reference evaluator; (random) longer sequences up to 60 tokens, nesting <= 6; (truthiness) every falsy spelling with case variants, near-misses and arbitrary strings through not/if against the ASCII-case-insensitive table. Non-trivial: sequence with a group or both connectives; distinct by (token sequence, atom values)",
+        rule: "(grammar) EXHAUSTIVE enumeration of every well-formed token sequence of E := A ((and|or) A)*, A := T | F | ( E? ) up to 11 tokens (quick) / 15 tokens (thorough), each T/F spelled with a truthy/falsy value from a pool and passed through a variable, run through all four consumers (not, if, elseif, while) and compared with a 40-line and-of-ors reference evaluator; (random) longer sequences up to 60 tokens, nesting <= 6; (truthiness) every falsy spelling with case variants, near-misses and arbitrary strings through not/if against the ASCII-case-insensitive table. Non-trivial: sequence with a group or both connectives; distinct by (token sequence, atom values)",
         assumptions: &[
             "atom values are never the keywords and/or/(/) and never a registered command name (documented dispatch rule for the first token)",
             "only well-formed statements are generated",
@@ -408,7 +408,7 @@ pub fn property() -> Property {
                 min_classes: &[("group-first-then-or", 100), ("empty-group", 100), ("nested-group", 100), ("group-last", 100)],
             },
             Section {
-                name: "grammar-exhaustive-14",
+                name: "grammar-exhaustive-15",
                 plan: |t| match t {
                     Tier::Quick => Plan::Skip,
                     Tier::Thorough => Plan::Exhaustive { count: seqs(true).len() as u64 },
@@ -420,7 +420,7 @@ pub fn property() -> Property {
                 name: "random-long",
                 plan: |t| match t {
                     Tier::Quick => Plan::Random { cases: 30_000, max_len: 160 },
-                    Tier::Thorough => Plan::Random { cases: 600_000, max_len: 200 },
+                    Tier::Thorough => Plan::Random { cases: 1_800_000, max_len: 200 },
                 },
                 case: case_random,
                 min_classes: &[("longer-than-exhaustive-bound", 1000)],
@@ -429,7 +429,7 @@ pub fn property() -> Property {
                 name: "truthiness",
                 plan: |t| match t {
                     Tier::Quick => Plan::Random { cases: 20_000, max_len: 40 },
-                    Tier::Thorough => Plan::Random { cases: 400_000, max_len: 60 },
+                    Tier::Thorough => Plan::Random { cases: 1_200_000, max_len: 60 },
                 },
                 case: case_truthiness,
                 min_classes: &[("absent-value", 50), ("falsy-value", 1000), ("truthy-value", 1000)],
